@@ -48,7 +48,7 @@ ASSUMPTIONS = [
     "numbers are compared with |a-b| <= 1e-9 * max(1, |a|, |b|) (all compared quantities are O(1)-O(100); exact cancellations such as Laplacian entries or correlation coefficients may differ in the last ulp under a different summation order); NaN == NaN, inf == inf",
     "results that are dicts are compared as mappings (iteration order of a result legitimately follows insertion order); components as a set of sets; largest_connected_component by size only (ties are broken by order); duplicates() by {member set: number of IDs returned} because *which* ID of a class is kept depends on the labels",
     "both sides raising the same exception type is not a mismatch (counted as both-raised:<measure>); one side only, or two different types, is",
-    "label kinds for nodes and for edge IDs (chosen by case index): permutation of the same ints | gapped/negative ints | strings | mixed ints and strings in one network | ints >= 1000 / 2**33 / negative (outside CPython's small-int cache) | floats (integral and non-integral) | numpy.int64 | strings built at run time (not interned) | tuples of ints. Every occurrence of a label in the construction of the relabelled network and in arguments is a separately created equal object (fresh()); both networks are built with add_node / add_edge only, never a bulk call",
+    "label kinds for nodes and for edge IDs (chosen by case index): permutation of the same ints | gapped/negative ints | strings | mixed ints and strings in one network, often with look-alikes that are unequal but print alike (k and str(k), 'a' and 'a ', (1, 2) and '(1, 2)') | ints >= 1000 / 2**33 / negative (outside CPython's small-int cache) | floats (integral and non-integral) | numpy.int64 | strings built at run time (not interned) | tuples of ints. Every occurrence of a label in the construction of the relabelled network and in arguments is a separately created equal object (fresh()); both networks are built with add_node / add_edge only, never a bulk call",
     "measure x label-kind support was determined empirically on the unchanged tree: everything in the catalogue supports every kind except the eight simpliciality measures (5 functions + 3 local_* stats) with mixed int/str node labels - their Trie sorts the members of an edge, so unorderable labels raise TypeError while the int-labelled base returns a value; those (measure, kind) pairs are skipped and counted (skipped-unsupported:*) (property mechanism: 'label-order independent for orderable labels')",
     "not in the catalogue, with reason: degree_assortativity(exact=False), h_/uniform_h_eigenvector_centrality (random start vector / sampling, C17 owns seeds); clique_ and z_eigenvector_centrality (ARPACK eigsh from a random start, converged only to tol); line_vector_centrality (documents that nodes must be 0..n-1: label dependent by contract); nodestats.attrs (not structural); argmax/argmin/argsort of stats (ties broken by order). node_edge_centrality is deterministic and included with tolerance 1e-6 (its stopping tolerance)",
     "no empty edges; inputs whose construction already violates the C01 invariant are discarded and counted",
@@ -362,8 +362,25 @@ def _bijection(rng, k, kind, role):
         n_str = rng.randint(1, k - 1) if k >= 2 else rng.randint(0, 1)
         which = set(rng.sample(ident, n_str))
         img = [strs[i] if i in which else ints[i] for i in ident]
-        if all(isinstance(v, int) for v in img) and img == ident:
-            img[0] = 41
+        if k >= 2 and rng.random() < 0.65:
+            # look-alikes: unequal labels with the same str(): an int k and the string str(k) are both labels
+            # ('a' / 'a ' and (1, 2) / '(1, 2)' likewise) - anything keyed by str(label) or repr(label) merges them
+            si = sorted(which)
+            ii = [i for i in ident if i not in which]
+            rng.shuffle(si)
+            rng.shuffle(ii)
+            for a, b in list(zip(si, ii))[: rng.randint(1, 3)]:
+                img[a] = str(img[b])
+            left = [i for i in si if img[i] in strs]
+            if len(left) >= 2 and rng.random() < 0.4:
+                img[left[1]] = img[left[0]] + " "
+            if len(ii) >= 2 and len(si) >= 2 and rng.random() < 0.3:
+                img[ii[-1]] = (rng.randint(0, 3), rng.randint(0, 3))
+                img[si[-1]] = str(img[ii[-1]])
+        if len(set(img)) < k or (all(isinstance(v, int) for v in img) and img == ident):
+            img = [strs[i] if i in which else ints[i] for i in ident]
+            if img == ident:
+                img[0] = 41
     else:
         img = ident
         while img == ident:
